@@ -19,6 +19,8 @@ import (
 // ---- one ledger row, with the guards the SQL statements of ledger.go carry ----
 // (UPDATE ... WHERE state IN (...); the model mirrors them, it does not verify them)
 
+var c27Other []byte
+
 var c27Row struct {
 	state     SyncState
 	attempts  int
@@ -73,6 +75,9 @@ func c27MarkFailed(l *Ledger, ctx context.Context, hubID, path, msg string, maxA
 		to = StateFailed
 	}
 	return c27Move(to, StateInFlight)
+}
+func c27MarkConflicted(l *Ledger, ctx context.Context, hubID, path, msg string) error {
+	return c27Move(StateFailed, StatePending)
 }
 func c27MarkSkipped(l *Ledger, ctx context.Context, hubID, path, note string) error {
 	return c27Move(StateSkipped, StatePending, StateInFlight)
@@ -147,6 +152,16 @@ func VerifC27Sync() {
 	zz.Assert(err == nil, "backend")
 	rcv, err := NewReceiver(ReceiverConfig{Backend: hubBE, Logger: zerolog.Nop()})
 	zz.Assert(err == nil, "receiver")
+	if zz.Bool("hub_holds_other_content") {
+		// the hub already holds different bytes at this spoke's path (a spoke-id collision,
+		// a restored hub): every transfer of the file is answered with a conflict
+		other := zz.Bytes("other_content", 3)
+		zz.Assume(!zz.EqBytes(other, file))
+		zz.FSWriteFile(root+"/s1/"+src, other)
+		c27Other = other
+	} else {
+		c27Other = nil
+	}
 	tr := &c27Transport{rcv: rcv}
 	a := &Agent{ledger: &Ledger{}, transport: tr, backend: spokeBE, hubID: "hub", spokeID: "s1", logger: zerolog.Nop(), maxAttempts: zz.ParamInt("max_attempts", 2)}
 	c27Row.state, c27Row.attempts, c27Row.bytesSent, c27Row.size, c27Row.history = StatePending, 0, 0, int64(len(file)), nil
@@ -182,7 +197,9 @@ func VerifC27Sync() {
 		}
 		_ = before
 		got, ok := zz.FSFileBytes(final)
-		if ok {
+		if ok && c27Other != nil {
+			zz.Assert(zz.EqBytes(got, c27Other), "a conflicting upload replaced the content the hub held")
+		} else if ok {
 			zz.Assert(zz.EqBytes(got, file), "the hub exposes a file whose bytes differ from the spoke's")
 		}
 		if c27Row.state == StateSynced {
@@ -195,8 +212,12 @@ func VerifC27Sync() {
 			zz.Reach("skipped")
 		}
 		if c27Row.state == StateFailed {
-			zz.Assert(c27Row.attempts >= a.maxAttempts, "the file was given up before its attempts were used")
+			// a content conflict is terminal at once; anything else only after the attempt cap
+			zz.Assert(c27Row.attempts >= a.maxAttempts || c27Other != nil, "the file was given up before its attempts were used")
 			zz.Reach("failed")
+			if c27Other != nil {
+				zz.Reach("conflict-terminal")
+			}
 		}
 		if !crashed {
 			zz.Assert(c27Row.state != StateInFlight, "a finished pass left the row in flight")
